@@ -612,7 +612,8 @@ impl<'a> KMergeIterator<'a> {
 			} else {
 				// Level 1+: Tables have non-overlapping key ranges, use binary search
 				let start_idx = level.find_first_overlapping_table(&query_range);
-				let end_idx = level.find_last_overlapping_table(&query_range);
+				// An inverted range is empty: no table overlaps it
+				let end_idx = level.find_last_overlapping_table(&query_range).max(start_idx);
 
 				for table in &level.tables[start_idx..end_idx] {
 					// Skip tables outside timestamp range (if specified)
